@@ -1332,20 +1332,102 @@ func ruleCompareModeGate(p *Prog, m *Model, r *Report) {
 		}
 	}
 	callers := 0
-	for _, e := range callersOf(cg, aoc) {
-		if e.Site == nil {
-			continue
+	var judge func(e *callgraph.Edge, idx, depth int)
+	judge = func(e *callgraph.Edge, idx, depth int) {
+		arg := e.Site.Common().Args[idx]
+		// handed through: the caller passes its own parameter on; its callers decide
+		if par, isPar := arg.(*ssa.Parameter); isPar && depth < 3 && par.Parent() == e.Caller.Func {
+			pi := -1
+			for i, q := range e.Caller.Func.Params {
+				if q == par {
+					pi = i
+				}
+			}
+			up := callersOf(cg, e.Caller.Func)
+			if pi >= 0 && len(up) > 0 {
+				for _, e2 := range up {
+					if e2.Site != nil && len(e2.Site.Common().Args) == len(e.Caller.Func.Params) {
+						judge(e2, pi, depth+1)
+					}
+				}
+				return
+			}
 		}
 		callers++
-		arg := e.Site.Common().Args[idx]
 		desc, ok := isCompareFlagValue(arg)
 		r.add("R11.2", "caller-passes-flag|"+shortName(e.Caller.Func), p.ipos(e.Site),
 			"caller passes the compare selection for "+flag.Name()+": "+desc, ok,
 			"the mode argument is not the value of the 'compare' flag / verb")
 	}
+	for _, e := range callersOf(cg, aoc) {
+		if e.Site == nil {
+			continue
+		}
+		judge(e, idx, 0)
+	}
 	r.floor("R11.2", "callers of ApproveOrCompare", callers, 2)
 	// doapprove: any action other than approve/compare returns before side effects:
 	ruleDoApproveVerb(p, r)
+	ruleValueFlags(p, r, cg, aoc)
+}
+
+// ruleValueFlags (R11.4): the options that consume the following word.
+func ruleValueFlags(p *Prog, r *Report, cg *callgraph.Graph, aoc *ssa.Function) {
+	r.rule("R11.4", "The mode is selected by a switch on the command line (-C / --compare). An option that takes a value consumes the word that follows it, also when that word is -C: then the run is an approve. In the packages whose functions call ApproveOrCompare every option defined on a pflag.FlagSet that takes a value (anything but Bool*/Count*) is audited by name in tables/cli_flags.tsv (what the callers put behind it); an option whose name is not a constant, or a further value-taking option, is reported.")
+	want := map[string]string{}
+	for _, row := range readTable("cli_flags.tsv", 4) {
+		want[row[0]+"|"+row[1]+"|"+row[2]] = row[3]
+	}
+	pkgs := map[string]bool{}
+	for _, e := range callersOf(cg, aoc) {
+		pkgs[pkgOfFunc(e.Caller.Func)] = true
+	}
+	n, bools := 0, 0
+	for _, fn := range allModFuncs(p) {
+		if !pkgs[pkgOfFunc(fn)] {
+			continue
+		}
+		for _, cs := range callsOf(fn) {
+			f := cs.Static
+			if f == nil || f.Pkg == nil || f.Pkg.Pkg.Path() != "github.com/spf13/pflag" {
+				continue
+			}
+			sig := f.Signature
+			nameIdx, usage := -1, false
+			for i := 0; i < sig.Params().Len(); i++ {
+				switch sig.Params().At(i).Name() {
+				case "name":
+					nameIdx = i
+				case "usage":
+					usage = true
+				}
+			}
+			if nameIdx < 0 || !usage {
+				continue
+			}
+			m := f.Name()
+			if strings.HasPrefix(m, "Bool") && !strings.HasPrefix(m, "BoolSlice") || strings.HasPrefix(m, "Count") {
+				bools++
+				continue
+			}
+			args := cs.In.Common().Args
+			if sig.Recv() != nil {
+				args = args[1:]
+			}
+			name, ok := constString(args[nameIdx])
+			if !ok {
+				name = "<not a constant>"
+			}
+			kind := strings.TrimSuffix(strings.TrimSuffix(strings.TrimSuffix(m, "F"), "P"), "Var")
+			k := pkgOfFunc(fn) + "|" + name + "|" + kind
+			why, aud := want[k]
+			n++
+			r.add("R11.4", "value-option|"+k, p.ipos(cs.In), fmt.Sprintf("option --%s (%s) takes a value; audited: %q", name, m, why), aud,
+				"a further option consumes the word behind it; written in front of -C it turns a compare into an approve: audit what callers put behind it (a former switch must stay a switch)")
+		}
+	}
+	r.floor("R11.4", "value-taking options examined", n, 3)
+	r.floor("R11.4", "switches seen", bools, 4)
 }
 
 // isCompareFlagValue: v is *fs.BoolP("compare", ...) / fs.Bool("compare") or x == "compare".
